@@ -7,6 +7,7 @@ import (
 	"runtime"
 	"sort"
 	"strconv"
+	"strings"
 	"testing"
 	"time"
 )
@@ -86,6 +87,29 @@ func envInt(name string, def int) int {
 	return def
 }
 
+var watchdogTicks = 24
+
+// spinningEngineGoroutine looks for a goroutine in state runnable/running with a frame in the engine's own
+// code (the shims and the harness excluded) and returns its frames.
+func spinningEngineGoroutine(dump string) string {
+	for _, blk := range strings.Split(dump, "\n\n") {
+		lines := strings.Split(blk, "\n")
+		if len(lines) < 2 || !(strings.Contains(lines[0], "[runnable") || strings.Contains(lines[0], "[running")) {
+			continue
+		}
+		var frames []string
+		for _, l := range lines[1:] {
+			if strings.HasPrefix(l, "github.com/quickfixgo/quickfix") && !strings.Contains(l, "verifsim") {
+				frames = append(frames, strings.TrimSpace(l))
+			}
+		}
+		if len(frames) > 0 {
+			return strings.Join(frames, " | ")
+		}
+	}
+	return ""
+}
+
 func startWatchdog() {
 	// real-time watchdog: outside any bubble, so it runs on the real clock
 	go func() {
@@ -100,10 +124,19 @@ func startWatchdog() {
 				stuck = 0
 			}
 			last = cur
-			if stuck >= envInt("VERIF_WATCHDOG_TICKS", 24) {
+			if stuck >= envInt("VERIF_WATCHDOG_TICKS", watchdogTicks) {
 				buf := make([]byte, 1<<20)
 				n := runtime.Stack(buf, true)
 				fmt.Fprintf(os.Stderr, "WATCHDOG: run %d made no progress for %ds\n%s\n", cur, stuck*5, buf[:n])
+				// An engine goroutine that has been RUNNABLE all this time (not blocked: spinning) is a
+				// finding for the properties that promise liveness, not a harness failure: the run cannot be
+				// unwound, so it is handed to the runner as an emergency replay, which must spin again in a
+				// fresh process to count.
+				if e := CurrentEnv.Load(); e != nil {
+					if g := spinningEngineGoroutine(string(buf[:n])); g != "" {
+						e.EngineSpins("an engine goroutine keeps running without blocking for " + strconv.Itoa(stuck*5) + " s of real time: " + g)
+					}
+				}
 				os.Exit(3)
 			}
 		}
@@ -128,6 +161,7 @@ func TestWorker(t *testing.T) {
 	startWatchdog()
 
 	if rp := os.Getenv("VERIF_REPLAY"); rp != "" {
+		watchdogTicks = 8 // one run: 40 s without progress is a hang
 		replayMode(t, prop, rp, verbose)
 		return
 	}
